@@ -447,19 +447,23 @@ def m_window_capacity(run, cap):
 
 def m_permits_restored(run):
     f = []
+    from harness import names
     m = run.manager
-    cfg = m._config
-    checks = [('submission', m._submission_executor._semaphore, cfg.max_submission_queue_size),
-              ('request', m._request_executor._semaphore, cfg.max_request_queue_size),
-              ('io', m._io_executor._semaphore, cfg.max_io_queue_size)]
-    for nm, sem, cap in checks:
-        val = sem._semaphore._value
+    cfg = getattr(run, 'config', None) or m._config
+    stages = names.manager_stages(m)
+    for nm, role, cap in (('submission', 'sub', cfg.max_submission_queue_size),
+                          ('request', 'req', cfg.max_request_queue_size),
+                          ('io', 'io', cfg.max_io_queue_size)):
+        sem = names.executor_semaphore(stages[role]) if role in stages else None
+        val = names.semaphore_free(sem) if sem is not None else None
+        if val is None:
+            continue                      # not observable (reported as broken instrumentation by the run)
         if val != cap:
             f.append(f'{nm} stage semaphore at {val}, configured {cap}, after all transfers finished')
-    for tag, sem in m._request_executor._tag_semaphores.items():
+    for tag, sem in (names.executor_tag_semaphores(stages['req']).items() if 'req' in stages else ()):
         cap = cfg.max_in_memory_upload_chunks if tag.name == 'in_memory_upload' else cfg.max_in_memory_download_chunks
-        val = sem._semaphore._value if hasattr(sem, '_semaphore') else sem._count
-        if val != cap:
+        val = names.semaphore_free(sem)
+        if val is not None and val != cap:
             f.append(f'{tag.name} semaphore at {val}, configured {cap}, after all transfers finished')
     return f
 
